@@ -43,7 +43,7 @@ def main():
             if quiet and r.returncode == 0:
                 continue
             print("=== %s rc=%d" % (pr, r.returncode))
-            print(r.stdout[-3000:])
+            print(r.stdout[-30000:])
             if r.stderr.strip():
                 print(r.stderr[-1500:])
         return 0
